@@ -305,7 +305,12 @@ class Extract:
 
     def assign(self, st, fr):
         if len(st.targets) != 1:
-            raise Untranslatable('chained assignment')
+            # `a = b = value`: the value is evaluated once, then stored left to right
+            paths = [[]]
+            for k, tt in enumerate(st.targets):
+                paths = self.seq(paths, self.assign(ast.Assign(targets=[tt], value=st.value if k == 0 else ast.Constant(value=None)
+                                                               if isinstance(st.value, ast.Constant) else st.value), fr))
+            return paths
         t, v = st.targets[0], st.value
         # tuple targets
         if isinstance(t, ast.Tuple):
@@ -313,6 +318,12 @@ class Extract:
             if all(n is None for n in names):
                 paths = self.reads(v, fr)
                 self.note_locals(st, fr)
+                return paths
+            if isinstance(v, ast.Tuple) and len(v.elts) == len(t.elts) and \
+                    all(isinstance(x, ast.Constant) for x in v.elts):
+                paths = [[]]
+                for tt, vv in zip(t.elts, v.elts):
+                    paths = self.seq(paths, self.assign(ast.Assign(targets=[tt], value=vv), fr))
                 return paths
             if [n.lstrip('_') if n else n for n in names] == ['x', 'y']:
                 if isinstance(v, ast.Call) and ast.unparse(v.func) == 'make_xy_grid' and len(v.args) == 1 \
@@ -382,6 +393,8 @@ class Extract:
             sel = XY[c]
             tread = self.reads(ast.Attribute(value=t.value, attr=t.attr, ctx=ast.Load()), fr)
             pre = self.seq(tread, self.reads(v, fr))
+            if isinstance(v, ast.Name) and v.id in fr.locals:
+                v = fr.locals[v.id]
             if isinstance(st.op, ast.Sub) and isinstance(v, ast.Subscript):
                 src = self.cache_of_expr(v.value)
                 if src is not None and src[0] == c and self.is_center_index(v.slice, fr):
